@@ -44,7 +44,8 @@ func runC17(o *Out) {
 		maxLen = 300
 	}
 	alpha := "ACGTNacgtn*-.0123456789!\"#$%&'()+,/:;<=?@[\\]^_`{|}~ \tXYZ"
-	descs := []string{"", "seq1", "NC_001422.1 Coliphage phi-X174, complete genome", "a > b", " leading and trailing ", "tab\tinside", "x"}
+	descs := []string{"", "seq1", "NC_001422.1 Coliphage phi-X174, complete genome", "a > b", " leading and trailing ", "tab\tinside", "x",
+		"100% identity, 5%d of %s and a %v; %!", "back\\slash and \"quotes\" {braces} $HOME"}
 	// every residue count, several descriptions: write -> read
 	for n := 0; n <= maxLen; n++ {
 		data := residues(alpha, n, n)
